@@ -81,6 +81,9 @@ def c18(run):
     r_ownraw.run(run, P)
     from rules import r_dangfield
     r_dangfield.run(run, P)
+    from rules import r_nullbelief
+    r_nullbelief.run(run, P)
+    run.min_instances('R-NULL-BELIEF', 100)
     from rules import r_relonce
     r_relonce.run(run, P)                # a body handed to coap_add_data_large_*() is released exactly once, also when a later allocation fails
     from rules import r_noexit
@@ -245,6 +248,7 @@ def c05(run):
     r_stream.run_unit_complete(run, P)
     r_stream.run_phase_local(run, P)
     r_stream.run_empty_unit(run, P)
+    r_stream.run_buffered_examined(run, P)
     r_stream.run_buffer_param(run, P)
     from rules import r_width as _rw5
     _rw5.run_h(run, P)                   # the declared length of a stream message is computed without wrapping before it is compared with the limits
@@ -330,6 +334,7 @@ def c08(run):
     r_cnt.run_reset_drains(run, P)
     r_cnt.run_flush_order(run, P)
     r_cnt.run_scan_head(run, P)
+    r_cnt.run_park_reasons(run, P)
     from rules import r_delayq
     r_delayq.run(run, P)                 # if the session fails, each held Confirmable is reported by a NACK
     from rules import r_midzero
@@ -526,6 +531,9 @@ def c02(run):
     r_range.run_token_ext(run, P)
     from rules import r_dangfield
     r_dangfield.run(run, P)
+    from rules import r_nullbelief
+    r_nullbelief.run(run, P)
+    run.min_instances('R-NULL-BELIEF', 100)
     from rules import r_uaf
     r_uaf.run(run, P)                    # nothing is used after it was handed to a destructor or handed over with its release callback
     r_lenread_ = __import__('rules.r_lenread', fromlist=['x'])
@@ -542,6 +550,7 @@ def c02(run):
     r_stream.run_unit_complete(run, P)
     r_stream.run_phase_local(run, P)
     r_stream.run_empty_unit(run, P)
+    r_stream.run_buffered_examined(run, P)
     r_stream.run_buffer_param(run, P)
     from rules import r_width as _rw5
     _rw5.run_h(run, P)                   # the declared length of a stream message is computed without wrapping before it is compared with the limits
